@@ -5,6 +5,7 @@ import Mathlib.Algebra.Order.Field.Rat
 import Mathlib.Algebra.Order.AbsoluteValue.Basic
 import Mathlib.Analysis.Matrix.PosDef
 import Mathlib.Analysis.Matrix.Spectrum
+import Mathlib.LinearAlgebra.Eigenspace.Matrix
 /-!
 # C01 — helper lemmas: numpy closeness as an absolute-value inequality, monotonicity in `atol`,
 eigenvalue form of the PSD verdict, origin objects
@@ -355,6 +356,126 @@ theorem allSome_map_some {α : Type} (l : List α) (g : α → Bool) :
   simp [List.all_map, Function.comp_def]
 
 
+/-! ## composite verdicts: iff forms and monotonicity -/
+theorem allSome_true_iff (l : List (Option Bool)) : allSome l = some true ↔ ∀ x ∈ l, x = some true := by
+  induction l with
+  | nil => simp [allSome]
+  | cons a l ih =>
+    unfold allSome at *
+    cases a with
+    | none => simp
+    | some b =>
+      cases h : l.mapM id with
+      | none =>
+        rw [h] at ih; simp at ih
+        simp [List.mapM_cons, h]
+        intro hb; obtain ⟨x, hx, hne⟩ := ih; exact ⟨x, hx, hne⟩
+      | some bs =>
+        rw [h] at ih; simp at ih
+        simp [List.mapM_cons, h, ih]
+
+theorem isHermitian_mono (M : CMat) (a a' : Rat) (h : a ≤ a') (hc : isHermitian M a = some true) :
+    isHermitian M a' = some true := by
+  unfold isHermitian at *
+  by_cases hok : M.ok = true
+  · simp only [hok, Bool.not_true, Bool.false_eq_true, ↓reduceIte] at hc ⊢
+    cases hadj : M.adjoint with
+    | none => rw [hadj] at hc; simp at hc
+    | some adj =>
+      rw [hadj] at hc
+      simp only [Option.bind_eq_bind, Option.bind_some] at hc ⊢
+      rw [allSome_true_iff] at hc ⊢
+      intro x hx
+      rw [List.mem_map] at hx
+      obtain ⟨p, hp, rfl⟩ := hx
+      exact isCloseCC_mono _ _ _ _ _ h (hc _ (List.mem_map.2 ⟨p, hp, rfl⟩))
+  · simp [hok] at hc
+
+theorem psdVerdict_true_iff (M : CMat) (eigs : List Rat) (a : Rat) :
+    psdVerdict M eigs a = some true ↔ eigs.length = M.d ∧ isHermitian M a = some true ∧ psdEig eigs a = true := by
+  unfold psdVerdict
+  by_cases hl : eigs.length = M.d
+  · simp only [hl, ne_eq, not_true_eq_false, ↓reduceIte, true_and]
+    cases hh : isHermitian M a with
+    | none => simp
+    | some b => cases b <;> simp
+  · simp [hl]
+
+theorem psdVerdict_mono (M : CMat) (eigs : List Rat) (a a' : Rat) (h : a ≤ a')
+    (hc : psdVerdict M eigs a = some true) : psdVerdict M eigs a' = some true := by
+  rw [psdVerdict_true_iff] at *
+  exact ⟨hc.1, isHermitian_mono M a a' h hc.2.1, psdEig_mono eigs a a' h hc.2.2⟩
+
+theorem povmPsd_true_iff (Ms : List CMat) (eigss : List (List Rat)) (a : Rat) :
+    povmPsd Ms eigss a = some true ↔
+      Ms.length = eigss.length ∧ ∀ p ∈ Ms.zip eigss, psdVerdict p.1 p.2 a = some true := by
+  unfold povmPsd
+  by_cases hl : Ms.length = eigss.length
+  · simp only [hl, ne_eq, not_true_eq_false, ↓reduceIte, true_and, allSome_true_iff, List.mem_map]
+    constructor
+    · intro h p hp; exact h _ ⟨p, hp, rfl⟩
+    · rintro h x ⟨p, hp, rfl⟩; exact h p hp
+  · simp [hl]
+
+theorem povmPsd_mono (Ms : List CMat) (eigss : List (List Rat)) (a a' : Rat) (h : a ≤ a')
+    (hc : povmPsd Ms eigss a = some true) : povmPsd Ms eigss a' = some true := by
+  rw [povmPsd_true_iff] at *
+  exact ⟨hc.1, fun p hp => psdVerdict_mono _ _ a a' h (hc.2 p hp)⟩
+
+theorem tpTrace_mono (n : Nat) (t : List C) (hs : List Rat) (a a' : Rat) (h : a ≤ a')
+    (hc : tpTrace n t hs a = some true) : tpTrace n t hs a' = some true := by
+  unfold tpTrace at *
+  split at hc
+  · cases hc
+  · rename_i hg
+    rw [if_neg hg]
+    rw [allSome_true_iff] at hc ⊢
+    intro x hx
+    rw [List.mem_map] at hx
+    obtain ⟨k, hk, rfl⟩ := hx
+    have := hc _ (List.mem_map.2 ⟨k, hk, rfl⟩)
+    cases hcol : (List.range n).mapM (fun b => hs[b * n + k]?) with
+    | none => rw [hcol] at this; simp at this
+    | some col =>
+      rw [hcol] at this
+      simp only [Option.bind_eq_bind, Option.bind_some] at this ⊢
+      cases hb : t[k]? with
+      | none => rw [hb] at this; simp at this
+      | some before =>
+        rw [hb] at this
+        simp only [Option.bind_some] at this ⊢
+        exact isCloseCC_mono _ _ _ _ _ h this
+
+theorem isTp_mono (onh0 : Bool) (n : Nat) (t : List C) (hs : List Rat) (a a' : Rat) (h : a ≤ a')
+    (hc : isTp onh0 n t hs a = some true) : isTp onh0 n t hs a' = some true := by
+  unfold isTp at *
+  split at hc
+  · rename_i hb; rw [if_pos hb]; exact tpRow_mono n hs a a' h hc
+  · rename_i hb; rw [if_neg hb]; exact tpTrace_mono n t hs a a' h hc
+
+theorem mpSumTp_mono (onh0 : Bool) (n : Nat) (t : List C) (hss : List (List Rat)) (a a' : Rat) (h : a ≤ a')
+    (hc : mpSumTp onh0 n t hss a = some true) : mpSumTp onh0 n t hss a' = some true := by
+  unfold mpSumTp at *
+  split at hc
+  · cases hc
+  · rename_i hg; rw [if_neg hg]; exact isTp_mono onh0 n _ _ a a' h hc
+
+/-- a pair of sub-verdicts combined by `do`-`physical` is true iff both are -/
+theorem physical_do_iff (x y : Option Bool) :
+    (do let a ← x; let b ← y; some (physical a b)) = some true ↔ x = some true ∧ y = some true := by
+  cases x with
+  | none => simp
+  | some a => cases y with
+    | none => simp
+    | some b => cases a <;> cases b <;> simp [physical]
+
+/-- `Tr[A(B_a)] = Σ_b hs[b][a]·Tr B_b` as the code accumulates it (real and imaginary part), `none` if an index is out of range -/
+def traceAfter (n : Nat) (t : List C) (hs : List Rat) (a : Nat) : Option C :=
+  ((List.range n).mapM fun b => hs[b * n + a]?).map fun col =>
+    ((col.zip t).foldl (fun acc (p : Rat × C) => acc + p.1 * p.2.1) 0,
+     (col.zip t).foldl (fun acc (p : Rat × C) => acc + p.1 * p.2.2) 0)
+
+
 /-! ## eigenvalues ≥ −a ⇔ `A + a•1` positive semidefinite (Mathlib spectral theorem) -/
 section spectral
 open Matrix Unitary
@@ -380,6 +501,57 @@ theorem eigenvalues_ge_neg_iff_posSemidef {𝕜 : Type*} [RCLike 𝕜] {A : Matr
   · intro h i; have := h i; exact_mod_cast (by linarith : (0:ℝ) ≤ hA.eigenvalues i + a)
   · intro h i; have := h i; have h2 : (0:ℝ) ≤ hA.eigenvalues i + a := by exact_mod_cast this
     linarith
+
+
+/-- the contract of `np.linalg.eigvalsh` up to accuracy `ε`: every eigenvalue of `M` is within `ε` of a list entry and
+every list entry is within `ε` of an eigenvalue -/
+def EigApprox {M : Matrix n n ℂ} (hM : M.IsHermitian) (eigs : List ℚ) (ε : ℝ) : Prop :=
+  (∀ i, ∃ l ∈ eigs, |((l : ℚ) : ℝ) - hM.eigenvalues i| ≤ ε) ∧
+  (∀ l ∈ eigs, ∃ i, |((l : ℚ) : ℝ) - hM.eigenvalues i| ≤ ε)
+
+/-- soundness: a true eigenvalue test at `atol` implies `M + (atol+ε)•1` is positive semidefinite -/
+theorem psdEig_sound (M : Matrix n n ℂ) (hM : M.IsHermitian) (eigs : List ℚ) (atol : ℚ) (ε : ℝ) (ha : 0 ≤ atol)
+    (hap : EigApprox hM eigs ε) (hv : psdEig eigs atol = true) :
+    (M + ((((atol : ℚ) : ℝ) + ε : ℝ) : ℂ) • (1 : Matrix n n ℂ)).PosSemidef := by
+  have h := (psdEig_iff eigs atol ha).1 hv
+  have key := (eigenvalues_ge_neg_iff_posSemidef (𝕜 := ℂ) hM (((atol : ℚ) : ℝ) + ε)).1 (by
+    intro i
+    obtain ⟨l, hl, hli⟩ := hap.1 i
+    have h1 : -((atol : ℚ) : ℝ) ≤ ((l : ℚ) : ℝ) := by exact_mod_cast h l hl
+    have := abs_le.1 hli
+    linarith)
+  simpa using key
+
+/-- completeness: if `M + (atol−ε)•1` is positive semidefinite the eigenvalue test at `atol` is true -/
+theorem psdEig_complete (M : Matrix n n ℂ) (hM : M.IsHermitian) (eigs : List ℚ) (atol : ℚ) (ε : ℝ) (ha : 0 ≤ atol)
+    (hap : EigApprox hM eigs ε)
+    (hpsd : (M + ((((atol : ℚ) : ℝ) - ε : ℝ) : ℂ) • (1 : Matrix n n ℂ)).PosSemidef) :
+    psdEig eigs atol = true := by
+  rw [psdEig_iff eigs atol ha]
+  have key := (eigenvalues_ge_neg_iff_posSemidef (𝕜 := ℂ) hM (((atol : ℚ) : ℝ) - ε)).2 (by simpa using hpsd)
+  intro l hl
+  obtain ⟨i, hli⟩ := hap.2 l hl
+  have := abs_le.1 hli
+  have h2 := key i
+  have : -((atol : ℚ) : ℝ) ≤ ((l : ℚ) : ℝ) := by linarith
+  exact_mod_cast this
+
+/-- eigenvalues of a real diagonal matrix (as a set): exactly the diagonal entries -/
+theorem eigenvalues_range_diagonal (r : n → ℝ) (h : (diagonal fun i => ((r i : ℝ) : ℂ)).IsHermitian) :
+    Set.range h.eigenvalues = Set.range r := by
+  have h1 := h.spectrum_eq_image_range (𝕜 := ℂ)
+  rw [spectrum_diagonal] at h1
+  ext x
+  constructor
+  · rintro ⟨i, rfl⟩
+    have : ((h.eigenvalues i : ℝ) : ℂ) ∈ Set.range fun i => ((r i : ℝ) : ℂ) := by
+      rw [h1]; exact ⟨_, ⟨i, rfl⟩, rfl⟩
+    obtain ⟨j, hj⟩ := this
+    exact ⟨j, by have hj' : ((r j : ℝ) : ℂ) = ((h.eigenvalues i : ℝ) : ℂ) := hj; exact_mod_cast hj'⟩
+  · rintro ⟨j, rfl⟩
+    have : ((r j : ℝ) : ℂ) ∈ RCLike.ofReal '' Set.range h.eigenvalues := by rw [← h1]; exact ⟨j, rfl⟩
+    obtain ⟨y, ⟨i, rfl⟩, hy⟩ := this
+    exact ⟨i, by have hy' : ((h.eigenvalues i : ℝ) : ℂ) = ((r j : ℝ) : ℂ) := hy; exact_mod_cast hy'⟩
 
 end spectral
 
@@ -454,6 +626,85 @@ theorem zeroMat_toMatrix : (⟨2, [(0,0),(0,0),(0,0),(0,0)]⟩ : CMat).toMatrix 
   ext i j
   fin_cases i <;> fin_cases j <;> simp [CMat.toMatrix, toC]
 
+
+/-! a concrete non-diagonal-free instance for the sandwich theorems: the qubit state diag(2/3, 1/3) -/
+abbrev exRho : CMat := ⟨2, [(2/3, 0), (0, 0), (0, 0), (1/3, 0)]⟩
+noncomputable def exDiag : Fin 2 → ℝ := ![2/3, 1/3]
+
+theorem exRho_toMatrix : exRho.toMatrix = diagonal fun i => ((exDiag i : ℝ) : ℂ) := by
+  ext i j
+  fin_cases i <;> fin_cases j <;> simp [exDiag, CMat.toMatrix, toC, diagonal] <;> norm_num
+
+theorem exRho_hermitian : exRho.toMatrix.IsHermitian := by
+  rw [exRho_toMatrix]
+  exact isHermitian_diagonal_of_self_adjoint _ (by ext i; simp [Complex.conj_ofReal])
+
+theorem exRho_eigApprox : EigApprox exRho_hermitian [333/1000, 667/1000] (1/1000) := by
+  have hr : Set.range exRho_hermitian.eigenvalues = Set.range exDiag := by
+    have h := exRho_hermitian
+    have e := exRho_toMatrix
+    have h' : (diagonal fun i => ((exDiag i : ℝ) : ℂ)).IsHermitian := e ▸ h
+    have := eigenvalues_range_diagonal exDiag h'
+    -- transport along the matrix equality
+    have key : ∀ (A B : Matrix (Fin 2) (Fin 2) ℂ) (hA : A.IsHermitian) (hB : B.IsHermitian), A = B →
+        Set.range hA.eigenvalues = Set.range hB.eigenvalues := by
+      intro A B hA hB hab; subst hab; rfl
+    exact (key _ _ exRho_hermitian h' e).trans this
+  constructor
+  · intro i
+    have : exRho_hermitian.eigenvalues i ∈ Set.range exDiag := hr ▸ ⟨i, rfl⟩
+    obtain ⟨j, hj⟩ := this
+    fin_cases j
+    · refine ⟨667/1000, by simp, ?_⟩
+      rw [← hj]; simp [exDiag]; rw [abs_le]; constructor <;> norm_num
+    · refine ⟨333/1000, by simp, ?_⟩
+      rw [← hj]; simp [exDiag]; rw [abs_le]; constructor <;> norm_num
+  · intro l hl
+    simp only [List.mem_cons, List.mem_nil_iff, or_false] at hl
+    rcases hl with rfl | rfl
+    · have : exDiag 1 ∈ Set.range exRho_hermitian.eigenvalues := hr ▸ ⟨1, rfl⟩
+      obtain ⟨i, hi⟩ := this
+      refine ⟨i, ?_⟩
+      rw [hi]; simp [exDiag]; rw [abs_le]; constructor <;> norm_num
+    · have : exDiag 0 ∈ Set.range exRho_hermitian.eigenvalues := hr ▸ ⟨0, rfl⟩
+      obtain ⟨i, hi⟩ := this
+      refine ⟨i, ?_⟩
+      rw [hi]; simp [exDiag]; rw [abs_le]; constructor <;> norm_num
+
+
 end bridge
+
+/-! ## trace of scalar matrices -/
+theorem foldl_add_const (l : List C) (f : C → Rat) (a : Rat) :
+    l.foldl (fun acc z => acc + f z) a = a + (l.map f).sum := by
+  induction l generalizing a with
+  | nil => simp
+  | cons x l ih => simp [ih]; ring
+
+/-- trace of the scalar model matrix `c·1` of size `d` -/
+theorem scalarMat_trace (d : Nat) (c : Rat) : (scalarMat d c).trace = some ((d : Rat) * c, 0) := by
+  unfold CMat.trace scalarMat
+  dsimp only
+  by_cases hd : d = 0
+  · subst hd; simp
+  have hpos : 0 < d := Nat.pos_of_ne_zero hd
+  rw [mapM_some_map (List.range d) _ (fun _ => ((c, 0) : C))]
+  · simp only [Option.map_some, Option.some.injEq]
+    rw [foldl_add_const, foldl_add_const]
+    simp
+  · intro i hi
+    rw [List.mem_range] at hi
+    have hidx : i * d + i < d * d := by
+      calc i * d + i < i * d + d := by omega
+        _ = (i + 1) * d := by ring
+        _ ≤ d * d := Nat.mul_le_mul_right _ hi
+    rw [List.getElem?_map, List.getElem?_range hidx]
+    have e1 : (i * d + i) / d = i := by
+      rw [Nat.add_comm, Nat.add_mul_div_right _ _ hpos, Nat.div_eq_of_lt hi, Nat.zero_add]
+    have e2 : (i * d + i) % d = i := by
+      rw [Nat.add_comm, Nat.add_mul_mod_self_right, Nat.mod_eq_of_lt hi]
+    simp [e1, e2]
+
+
 
 end QM.C01
